@@ -13,7 +13,7 @@ for d in seeded/*/; do
     log=/verif/target/matrix-$id.log
     VERIF_WATCHDOG_S=${VERIF_WATCHDOG_S:-15} timeout 1200 tools/run_mutant.sh /verif/$d/patch.diff $prop > $log 2>&1
     rc=$?
-    git -C /repo checkout -- .
+    git -C /repo reset -q --hard
     classes=$(grep "violation class" $log | sed 's/ *violation class //; s/: [0-9]* run(s)//' | sed 's/ (.*)//' | sort -u | tr '\n' ',' | sed 's/,$//; s/,/, /g')
     if [ $rc = 0 ]; then verdict="caught (exit 1)"; else verdict="**MISSED** ($(grep 'check exit code' $log))"; fi
     echo "| $id | $prop | $verdict | $classes |" >> $OUT
